@@ -56,8 +56,11 @@ class DocActions(object):
       if not column.is_private() and column.col_id != "id":
         col_values = [column.raw_get(r) for r in row_ids]
         default = column.getdefault()
-        # If this column had all default values, don't include it into the undo BulkAddRecord.
-        if not all(strict_equal(val, default) for val in col_values):
+        # If this column had all default values, don't include it into the undo BulkAddRecord;
+        # except for a data column with a trigger formula: restoring the record must give it its
+        # value explicitly, or the formula would produce a new value for the restored record.
+        is_trigger_col = column.has_formula() and not column.is_formula()
+        if is_trigger_col or not all(strict_equal(val, default) for val in col_values):
           undo_values[column.col_id] = col_values
       for row_id in row_ids:
         column.unset(row_id)
